@@ -194,6 +194,8 @@ CONTROLS = {
          "  ClipperOffset clip_offset( miter_limit,\n    arc_tolerance, false, reverse_solution);", "  ClipperOffset clip_offset( miter_limit,\n    arc_tolerance, reverse_solution);", "FORWARD.param"),
     ],
     "C18": [
+        ('second unrolled term of Area has the opposite orientation', 'CPP/Clipper2Lib/include/clipper2/clipper.core.h', '      a += static_cast<double>(it1->y + it2->y) * (it1->x - it2->x);', '      a += static_cast<double>(it1->y + it2->y) * (it2->x - it1->x);', 'POLY.area'),
+        ('upper word adds the carry of the wrong intermediate', 'CPP/Clipper2Lib/include/clipper2/clipper.core.h', '    const uint64_t hibits = hi(a) * hi(b) + hi(x2) + hi(x3);', '    const uint64_t hibits = hi(a) * hi(b) + hi(x2) + hi(x1);', 'POLY.multiply'),
         ('Multiply fast path when only the first operand is small', 'CPP/Clipper2Lib/include/clipper2/clipper.core.h', '    const auto hi = [](uint64_t x) { return x >> 32; };\n', '    const auto hi = [](uint64_t x) { return x >> 32; };\n    if (hi(a) == 0) return { a * b, 0 };\n', 'P.multiply-no-wrap'),
         ('DistanceSqr mixes the axes', 'CPP/Clipper2Lib/include/clipper2/clipper.core.h', '    return Sqr(pt1.x - pt2.x) + Sqr(pt1.y - pt2.y);', '    return Sqr(pt1.x - pt2.x) + Sqr(pt1.y - pt2.x);', 'POLY.measure'),
         ('segment intersection parameter uses the far end of the second segment', 'CPP/Clipper2Lib/include/clipper2/clipper.core.h', '    double t = ((ln1a.x - ln2a.x) * dy2 - (ln1a.y - ln2a.y) * dx2) / det;', '    double t = ((ln1a.x - ln2b.x) * dy2 - (ln1a.y - ln2a.y) * dx2) / det;', 'POLY.intersect'),
